@@ -120,6 +120,51 @@ def refuted_by_model(model, goal, tol=1e-6):
         return False
 
 
+class Cuts:
+    """Lazy cuts for named quotients (scalars.DEFINE_SQRT_QUOTIENTS): bounds lemmas about a quotient are proven
+    in the exact encoding, later goals are first tried with the quotient as a free variable that keeps only
+    the proven bounds (a generalisation), then in the exact encoding."""
+
+    def __init__(self, reg, solver, cond, lemma_timeout=10.0):
+        self.reg, self.solver = reg, solver
+        self.cond = list(cond)
+        self.cond_x = [sc.expand_quotients(c) for c in self.cond]
+        self.lemmas = {}
+        self.lemma_timeout = lemma_timeout
+        self.log = []
+
+    def lemmas_for(self, rho):
+        if rho in self.lemmas:
+            return self.lemmas[rho]
+        q = sc.expand_quotients(rho)
+        out = []
+        for nm, g, gx in (
+            (">=0", tm.ge(rho, tm.ZERO), tm.ge(q, tm.ZERO)),
+            ("<=1", tm.le(rho, tm.ONE), tm.le(q, tm.ONE)),
+            ("<=0", tm.le(rho, tm.ZERO), tm.le(q, tm.ZERO)),
+        ):
+            if nm == "<=0" and len(out) == 2:
+                continue
+            o = prove(self.reg, self.solver, "lemma:%s%s" % (rho.args[0], nm), gx, [self.cond_x], self.lemma_timeout, kind="lemma")
+            self.log.append(o)
+            if o.status == "unsat":
+                out.append(g)
+        self.lemmas[rho] = out
+        return out
+
+    def prove(self, name, goal, cond, timeout, kind="goal"):
+        defs = getattr(self.reg, "quot_defs", {})
+        rhos = [v for v in tm.free_vars(goal, *cond) if v in defs]
+        forms = []
+        if rhos:
+            lem = []
+            for r in rhos:
+                lem += self.lemmas_for(r)
+            forms.append((list(cond) + lem, goal))
+        forms.append(([sc.expand_quotients(c) for c in cond], sc.expand_quotients(goal)))
+        return prove_forms(self.reg, self.solver, name, forms, timeout, kind=kind, quick_timeout=min(timeout, 20))
+
+
 def witness(reg, solver, name, assertions, timeout, logic=None, extra=()):
     """Vacuity / reachability twin: the assertions must be satisfiable.  `extra` terms get model values too."""
     st, model, secs, _ = check_sat(reg, solver, assertions, timeout, logic=logic, want_model=True, extra=extra)
